@@ -916,6 +916,60 @@ def desugar_vec_extend(toks, log):
     return relex(out)
 
 
+def desugar_asref_map(toks, log):
+    """R19b: `PLACE.as_ref().map(|x| BODY)` -> `(match PLACE.as_ref() { Some(x) => Some(BODY), None => None })` -- what Option::map does, written out (Verus needs
+    a contract on every closure and cannot infer one). PLACE is a place expression (`a`, `self.a.b`, `*a`); the closure takes one plain identifier and has an
+    expression body without a block. Applied AFTER the template's substitutions, to whatever such chains are left. If the receiver is not an Option the
+    result does not type-check and the unit is undecided, as it was before."""
+    toks = list(toks)
+    sig = [i for i, t in enumerate(toks) if t.kind not in ('ws', 'comment')]
+    edits = []
+    n = 0
+    while n + 9 < len(sig):
+        tx = [toks[sig[n + q]].text for q in range(10)]
+        # . as_ref ( ) . map ( | x |
+        if tx[0] == '.' and tx[1] == 'as_ref' and tx[2] == '(' and tx[3] == ')' and tx[4] == '.' and tx[5] == 'map' and tx[6] == '(' and tx[7] == '|' \
+                and toks[sig[n + 8]].kind == 'ident' and tx[9] == '|':
+            op = sig[n + 6]
+            cl = match_close(toks, op)
+            body_first = sig[n + 10] if n + 10 < len(sig) else None
+            if body_first is None or toks[body_first].text == '{' or toks[body_first].text == '-':
+                n += 1
+                continue
+            # nothing but the closure inside map( .. )
+            # receiver: walk back over a place expression
+            a = n - 1
+            if a < 0 or toks[sig[a]].kind != 'ident':
+                n += 1
+                continue
+            while a - 2 >= 0 and toks[sig[a - 1]].text == '.' and toks[sig[a - 2]].kind == 'ident':
+                a -= 2
+            if a - 1 >= 0 and toks[sig[a - 1]].text in ('.', ')', ']', '?', '::'):
+                n += 1
+                continue
+            edits.append((sig[a], sig[n], sig[n + 8], sig[n + 9], cl))
+            # skip past this chain
+            while n < len(sig) and sig[n] <= cl:
+                n += 1
+            continue
+        n += 1
+    if not edits:
+        return toks
+    out = []
+    k = 0
+    for (ra, dot, xi, bar2, cl) in edits:
+        out.extend(toks[k:ra])
+        recv = text(toks[ra:dot]).strip()
+        x = toks[xi].text
+        body = text(toks[bar2 + 1:cl]).strip()
+        rep = '(match %s.as_ref() { Some(%s) => Some(%s), None => None })' % (recv, x, body)
+        out.extend(Tok(u.kind, u.text, 0, toks[ra].line) for u in lex(rep))
+        log.append(('R19', '%s.as_ref().map(|%s| ..) written out as the match Option::map performs' % (recv, x), toks[ra].line))
+        k = cl + 1
+    out.extend(toks[k:])
+    return relex(out)
+
+
 def desugar_iter_mut(toks, log):
     """R29: `for PAT in EXPR.iter_mut() { BODY }` ->
          { let mut __imN: usize = 0; while __imN < EXPR.len() { let PAT = &mut EXPR[__imN]; __imN = __imN + 1; BODY } }
